@@ -772,8 +772,9 @@ class Evaluator:
         block (CFG lists every sub-expression; folding the top ones evaluates each effect once)"""
         f = self.f
         els = [e for e in blk["el"] if isinstance(e, int)]
-        if blk.get("cond") is not None and blk["cond"] not in els:
-            pass
+        # labels (catch / case / default) head a block as an element of their own: they are not evaluated and do not hide
+        # the statements they contain
+        els = [e for e in els if f.nodes[e]["k"] not in ("CXXCatchStmt", "CaseStmt", "DefaultStmt", "LabelStmt")]
         s = set(els)
         out = []
         for e in els:
